@@ -46,7 +46,7 @@ DATETIMES_EXT = [_dt(DATES_EXT[0]), _dt(DATES_EXT[1], 23, 59, 59, 999999)]
 
 KINDS_BASIC = ["bool", "int", "float", "str", "date", "datetime"]
 KINDS_KEY = ["bool", "int", "float", "str", "lstr", "ustr", "date", "datetime", "obool"]
-NA_CAPABLE = {"datetime_s", "datetime_ms", "datetime_ns", "longdouble", "tstr", "onum", "omix", "float", "str", "lstr", "ustr", "date", "datetime", "obool", "obj", "ostr", "timedelta", "float32", "oint"}
+NA_CAPABLE = {"timedelta_ms", "datetime_s", "datetime_ms", "datetime_ns", "longdouble", "tstr", "onum", "omix", "float", "str", "lstr", "ustr", "date", "datetime", "obool", "obj", "ostr", "timedelta", "float32", "oint"}
 NA_PATTERNS = ["none", "none", "some", "some", "first", "last", "all"]
 
 def pool(rng, kind, hostile=0.25, tags=None):
@@ -122,6 +122,8 @@ def pool(rng, kind, hostile=0.25, tags=None):
         return [1, 1.0, 2, 2.5, 2.0, -3, 0, 0.0]      # object column of numbers: equal values that print differently
     if kind == "omix":
         return [1, "1", 2.5, "2.5", "None", "a", 2, "nan"]      # object column of mixed types: different values that print alike
+    if kind == "timedelta_ms":
+        return [datetime.timedelta(0), datetime.timedelta(days=1), datetime.timedelta(seconds=-5), datetime.timedelta(days=400, milliseconds=7)]
     if kind == "timedelta":
         return [datetime.timedelta(0), datetime.timedelta(days=1), datetime.timedelta(seconds=-5), datetime.timedelta(days=400, microseconds=7)]
     if kind == "bytes":
@@ -204,6 +206,8 @@ def np_column(kind, values):
     if kind == "timedelta":
         a = np.array([np.timedelta64("NaT") if v is None else np.timedelta64(v) for v in values] or [], dtype="timedelta64[us]")
         return a
+    if kind == "timedelta_ms":
+        return np_column("timedelta", values).astype("timedelta64[ms]")
     if kind == "bytes":
         return np.array(values, dtype="S3") if n else np.array([], dtype="S1")
     if kind == "complex":
